@@ -1,8 +1,7 @@
-use proc_macro2::{Span, TokenStream};
+use proc_macro2::TokenStream;
 use quote::quote;
-use syn::Ident;
 
-use crate::{wgsl::rust_type, MatrixVectorTypes};
+use crate::{name_to_ident, wgsl::rust_type, MatrixVectorTypes};
 
 pub fn consts(module: &naga::Module) -> Vec<TokenStream> {
     // Create matching Rust constants for WGSl constants.
@@ -10,7 +9,7 @@ pub fn consts(module: &naga::Module) -> Vec<TokenStream> {
         .constants
         .iter()
         .filter_map(|(_, t)| -> Option<TokenStream> {
-            let name = Ident::new(t.name.as_ref()?, Span::call_site());
+            let name = name_to_ident(t.name.as_ref()?);
 
             // TODO: Add support for f64 and f16 once naga supports them.
             let type_and_value = match &module.global_expressions[t.init] {
@@ -39,7 +38,7 @@ pub fn pipeline_overridable_constants(module: &naga::Module) -> TokenStream {
     let fields: Vec<_> = overrides
         .iter()
         .map(|o| {
-            let name = Ident::new(o.name.as_ref().unwrap(), Span::call_site());
+            let name = name_to_ident(o.name.as_ref().unwrap());
             // TODO: Do we only need to handle scalar types here?
             let ty = rust_type(module, &module.types[o.ty], MatrixVectorTypes::Rust);
 
@@ -59,7 +58,7 @@ pub fn pipeline_overridable_constants(module: &naga::Module) -> TokenStream {
             } else {
                 let key = override_key(o);
 
-                let name = Ident::new(o.name.as_ref().unwrap(), Span::call_site());
+                let name = name_to_ident(o.name.as_ref().unwrap());
 
                 // TODO: Do we only need to handle scalar types here?
                 let ty = &module.types[o.ty];
@@ -90,7 +89,7 @@ pub fn pipeline_overridable_constants(module: &naga::Module) -> TokenStream {
                     quote!(value as f64)
                 };
 
-                let name = Ident::new(o.name.as_ref().unwrap(), Span::call_site());
+                let name = name_to_ident(o.name.as_ref().unwrap());
 
                 Some(quote! {
                     if let Some(value) = self.#name {
